@@ -399,6 +399,7 @@ def _conc_run(tier):
         p = run([probe, "-test.run", "TestConcurrentClients", "-test.count", "1", "-test.timeout", "0"], env=env, timeout=1500)
         outp = p.stdout or ""
         races = []
+        harness_races = 0
         # race reports / runtime faults whose stack contains prunner frames
         for blk in re.split(r"(?=WARNING: DATA RACE)", outp):
             if blk.startswith("WARNING: DATA RACE"):
@@ -408,12 +409,31 @@ def _conc_run(tier):
                 # is prunner code (a race inside the harness' own fake runner is the harness' problem)
                 own = False
                 for stack in re.split(r"\n\n", blk):
-                    fr = [l.strip() for l in stack.splitlines() if re.match(r"^\s+\S+\(", l) or re.match(r"^  \S+\.\S+\(", l)]
-                    fr = [x for x in fr if not re.match(r"^(runtime|sync|sync/atomic|internal/\S+|time|os|io|syscall|context)\.", x)]
-                    if fr and "github.com/Flowpack/prunner" in fr[0] and ("by goroutine" in stack or "Previous" in stack or "Read at" in stack or "Write at" in stack):
+                    if not ("by goroutine" in stack or "Previous" in stack or "Read at" in stack or "Write at" in stack):
+                        continue
+                    sl = stack.splitlines()
+                    fr = [(l.strip(), sl[i + 1].strip() if i + 1 < len(sl) else "") for i, l in enumerate(sl) if re.match(r"^  \S+\.\S+\(", l)]
+                    fr = [x for x in fr if not re.match(r"^(runtime|sync|sync/atomic|internal/\S+|time|os|io|syscall|context)\.", x[0])]
+                    if not fr:
+                        continue
+                    if "github.com/Flowpack/prunner" in fr[0][0]:
                         own = True
+                    elif fr[0][0].startswith("verifharness/concprobe."):
+                        # accesses made inside sync primitives (WaitGroup, ...) are reported at their call site, and frames of
+                        # inlined callees can be missing: the report is prunner's if the probe's line is a call on the runner
+                        mm = re.match(r"^\S*/(conc_test\.go):(\d+)", fr[0][1])
+                        if mm:
+                            try:
+                                src = open(os.path.join(VERIF, "harness", "concprobe", mm.group(1))).read().splitlines()[int(mm.group(2)) - 1]
+                            except (OSError, IndexError):
+                                src = ""
+                            if re.search(r"\bpr\.\w+\(", src):
+                                own = True
+                                frames = frames or [fr[0][0] + " -> " + src.strip()]
                 if frames and own:
                     races.append({"race": True, "kind": "DATA RACE", "frames": frames[:8]})
+                elif not own:
+                    harness_races += 1
         m = re.search(r"^(fatal error: .*|panic: .*)$", outp, re.M)
         crashed = False
         if m:
